@@ -85,8 +85,9 @@ impl Report {
             part["bfs_new_states_per_level"] = json!(st.bfs_levels);
         }
         eprintln!(
-            "[{}] {:<34} execs={:<10} points={:<11} outcomes={:<9} viol-sigs={} {}{}",
+            "[{}] t={:>6.1}s {:<34} execs={:<10} points={:<11} outcomes={:<9} viol-sigs={} {}{}",
             self.property,
+            self.start.elapsed().as_secs_f64(),
             name,
             st.executions,
             st.transitions,
